@@ -817,7 +817,8 @@ class Container:
         # negative is what would be stored as a negative amount (the storage units decide, not litres or grams)
         if (Unit.parse_quantity(quantity)[0] < 0 and
                 (round(amount_to_add, config.internal_precision) < 0 or
-                 round(volume_to_add, config.internal_precision) < 0)):
+                 round(volume_to_add, config.internal_precision) < 0 or
+                 round(Unit.parse_quantity(quantity)[0], config.internal_precision) < 0)):
             raise ValueError("Quantity must be non-negative.")
         if round(self.volume + volume_to_add, config.internal_precision) > self.max_volume:
             raise ValueError("Exceeded maximum volume")
